@@ -50,6 +50,30 @@ def traceBalanced (trace : String) : Bool :=
     else if open_.contains n then open_.erase n else open_) []
   final.isEmpty
 
+/-- The trace is WELL NESTED: a word of the language of `RV.DictParser.Nested` - every `o<name>` is
+    matched by its own `c<name>`, LIFO (a close refers to the most recently opened handle that is not
+    done with), a second close of a handle allowed only directly after its first.
+    The trace names FILES, not handles, so where one name is open twice (a RecursiveInclude) a close can
+    be read as belonging to either handle; the recognizer keeps every reading (`List (stack, innermost
+    handle closed once already)`) and accepts if one of them is well nested.  This is the strongest
+    check the trace allows: a dropped close of a re-opened handle (`o a, o a, c a` then the parent's
+    close) is refused, whereas "inner handle closed twice, outer handle of the same name never" and
+    "both closed once" are the same word `o a, o a, c a, c a`.  That last gap is closed on the harness
+    side, which counts per handle: `err HandleLeak` (in-memory opener), `fds=<n>` (real files). -/
+def traceNested (trace : String) : Bool :=
+  if trace == "-" then true else
+  let step (cs : List (List String × Bool)) (e : String) : List (List String × Bool) :=
+    let n := (e.drop 1).toString
+    (cs.flatMap fun (stk, once) =>
+      -- a handle that was closed once is done with as soon as anything but its second close follows
+      let stk' := if once then stk.tail else stk
+      if e.startsWith "o" then [(n :: stk', false)]
+      else
+        (if once && stk.head? == some n then [(stk.tail, false)] else []) ++     -- the second close of that handle
+        (if stk'.head? == some n then [(stk', true)] else [])).eraseDups          -- the first close of the innermost open handle
+  let final := (trace.splitOn ",").foldl step [([], false)]
+  final.any fun (stk, once) => stk.isEmpty || (once && stk.length == 1)
+
 def c15 (op : String) (args : List String) (impl : String) : Verdict :=
   -- `walkfs` is the same walk through the real file system and FileSystemOpener, with the `$INCLUDE`
   -- arguments re-spelled in equivalent ways by the harness: the expected outcome is that of the plain spelling
@@ -68,7 +92,9 @@ def c15 (op : String) (args : List String) (impl : String) : Verdict :=
       let base : List (String × Bool) :=
         [noCrash impl,
          ("terminates_without_unbounded_recursion", impl != "DEPTH-EXCEEDED"),
-         ("every_opened_file_is_closed", traceBalanced trace)]
+         ("every_opened_file_is_closed", traceBalanced trace),
+         ("every_opened_handle_is_closed", !impl.startsWith "err HandleLeak"),
+         ("open_close_trace_is_well_nested", traceNested trace)]
       let specCl : List (String × Bool) :=
         match spec with
         | .unspecified _ => []
@@ -172,7 +198,9 @@ def c15io (args : List String) (impl : String) : Verdict :=
       let base : List (String × Bool) :=
         [noCrash impl,
          ("terminates_without_unbounded_recursion", impl != "DEPTH-EXCEEDED"),
-         ("every_opened_file_is_closed", traceBalanced trace)]
+         ("every_opened_file_is_closed", traceBalanced trace),
+         ("every_opened_handle_is_closed", !impl.startsWith "err HandleLeak"),
+         ("open_close_trace_is_well_nested", traceNested trace)]
       let io : List (String × Bool) :=
         match toks with
         | "ok" :: _ =>
